@@ -151,6 +151,9 @@ class Doc(object):
                 fl = [f for f in floats if (f[1] == 1) == isf]
                 if k < 0.15 and fl:
                     self.sub(pn, 'param', ref=r.choice(fl)[0])
+                elif k < 0.2 and not self.o.get('schema'):
+                    # a parameter reference that names no float/colour parameter (a sampler of the effect, or nothing): the property has no value
+                    self.sub(pn, 'param', ref=r.choice(samplers + ['nowhere']))
                 elif isf:
                     self.sub(pn, 'float', self.fnum(r.choice([0.0, 1.0, 0.5, 20.0])))
                 elif k < 0.45 and samplers:
